@@ -391,10 +391,22 @@ func resumeOne(id string, sp rspec) {
 	} else {
 		o.put("reconnect", "ok")
 		rs = nil
+		// the server has ACCEPTED the second connection; the client may still be inside CreateConnection (its new
+		// transport not installed yet).  A request issued in that window fails in its write - an error return, as on
+		// any broken connection, not a violation (C16's epilogue is about what such a request leaves behind) -, so
+		// the first request is repeated until the window is over.
+		window := 0
 		for i := 0; i < 2; i++ {
-			rs = append(rs, ping(int64(200+i), i%2 == 0))
+			r := ping(int64(200+i), i%2 == 0)
+			for i == 0 && r == "not-sent:error" && window < 50 {
+				window++
+				time.Sleep(20 * time.Millisecond)
+				r = ping(int64(300+window), true)
+			}
+			rs = append(rs, r)
 		}
 		o.put("requests-conn2", strings.Join(rs, ","))
+		o.put("conn2-requests-refused-in-the-reconnect-window", window)
 		time.Sleep(10 * time.Millisecond)
 		st2 := statsOf(srv.Frames(), 2, srv.Salt())
 		o.put("conn2-first-frame", st2.firstKind)
